@@ -617,6 +617,33 @@ func init() {
 				}
 			}
 		}
+		// exceptions without a permitted domain (negated domains only, or no domain at all): whether the parser
+		// takes such a line or not, the engine agrees with the rules it took, read as written
+		for _, exc := range []string{"~example.org#@#.x", "#@#.x", "~example.org,~example.com#@#.x", "~sub.example.org#@#.g1"} {
+			for _, with := range [][]string{nil, {"##.x"}, {"example.org##.x", "##.g1"}, {"~example.com##.x"}} {
+				all := append([]string{exc}, with...)
+				var lines []string
+				for _, l := range all {
+					if _, err := rules.NewCosmeticRule(l, 1); err == nil {
+						lines = append(lines, l)
+					}
+				}
+				ce := urlfilter.NewCosmeticEngine(stringStorage(joinLines(all) + "\n"))
+				for _, h := range []string{"example.org", "sub.example.org", "example.com", "other.net"} {
+					for _, generic := range []bool{true, false} {
+						wg, ws := c15WrittenReference(lines, h, true, generic)
+						res := ce.Match(h, true, true, generic)
+						evals++
+						gotG, gotS := sortedSet(res.ElementHiding.Generic), sortedSet(res.ElementHiding.Specific)
+						if !eqStrings(gotG, wg) || !eqStrings(gotS, ws) {
+							c.Run.Violate(ev.Violation{Pred: "selectors-equal-reference", Sig: map[string]any{"rules": all, "host": h, "generic": generic},
+								What:   fmt.Sprintf("CosmeticEngine.Match(%q, generic=%v) over %v (lines the parser takes: %v): generic=%v specific=%v; the rules as written give generic=%v specific=%v", h, generic, all, lines, gotG, gotS, wg, ws),
+								Replay: map[string]any{"corpus": true}})
+						}
+					}
+				}
+			}
+		}
 		cr, ch, cev := c15Corpus(c)
 		evals += cev
 		c.Run.Set("corpus_rules", cr)
